@@ -1206,6 +1206,11 @@ fn write_attribute_value<W: Write>(
                             p.value_expr(w)?;
                             write!(w, ")")?;
                             Ok(())
+                        })?;
+                        // `style` may be a property of a component: the change is only queued until the element is reported
+                        w.expr_stmt(|w| {
+                            write!(w, "E(N)")?;
+                            Ok(())
                         })
                     })?;
                 }
